@@ -914,4 +914,319 @@ Section Sim.
     rewrite (invoke_step P' n1 (rebind le ar fr) vr vr ty0 t tag cls' le_c cl' (combine (vars (cl_ctx cl)) ws')); auto.
     rewrite Hctx, rebind_snd by auto. apply bind_combine; auto.
   Qed.
+  (* ---------------- create: auxiliary facts (the derivations of case_create, as lemmas) ---------------- *)
+  Lemma Forall2_impl_In : forall {A B} (R Q : A -> B -> Prop) l l',
+    (forall a b, In a l -> R a b -> Q a b) -> Forall2 R l l' -> Forall2 Q l l'.
+  Proof.
+    intros A B R Q l l' H F; induction F as [|a b l l' Hab F IH]; constructor.
+    - apply H; simpl; auto.
+    - apply IH. intros a0 b0 Hin. apply H. simpl; auto.
+  Qed.
+
+  Lemma ren_lookup_pos : forall cn cnf, same_shape cn cnf -> NoDup (ids cn) ->
+    forall b, In b cn ->
+    exists b', In (b', b) (combine cnf cn) /\
+               sub_n (combine (ids cn) (vars cnf)) (idn (bvar b)) = idn (bvar b').
+  Proof.
+    intros cn cnf H; induction H as [|x y cn cnf [K1 [K2 K3]] H IH]; intros Hnd b Hb; simpl in *; [tauto|].
+    inversion Hnd as [|? ? Hn Hnd']; subst.
+    destruct Hb as [<-|Hb].
+    - exists y. split; auto. unfold sub_n; simpl. rewrite N.eqb_refl. simpl. auto.
+    - destruct (IH Hnd' b Hb) as [b' [B1 B2]]. exists b'. split; auto.
+      unfold sub_n in *; simpl.
+      destruct (N.eqb (idn (bvar x)) (idn (bvar b))) eqn:E; auto.
+      apply N.eqb_eq in E. exfalso. apply Hn. rewrite E. apply In_ids; auto.
+  Qed.
+
+  Definition cr_env (c : ctx) (nr : stmt) (clsr : list clause) : ctx :=
+    let cn := filter_by_set c (fv nr) in
+    filter_by_set (skipn (length cn) c ++ firstn (length cn) c) (fv_clauses clsr).
+
+  Lemma cr_env_facts : forall c nr clsr, NoDup (ids c) ->
+    let cc := cr_env c nr clsr in
+    NoDup (ids cc) /\ (forall b, In b cc -> In b c) /\ (forall x, In x (ids cc) -> In x (ids c)) /\
+    (forall x, In x (fv_clauses clsr) -> lookup_b c x = lookup_b cc x) /\
+    (forall x, In x (ids c) -> In x (fv_clauses clsr) -> In x (ids cc)).
+  Proof.
+    intros c nr clsr I1 cc. unfold cc, cr_env.
+    set (cn := filter_by_set c (fv nr)).
+    set (cr := skipn (length cn) c ++ firstn (length cn) c).
+    assert (Hcr : NoDup (ids cr)) by (apply reorder_NoDup; auto).
+    assert (Hin : forall b, In b (filter_by_set cr (fv_clauses clsr)) -> In b c).
+    { intros b Hb. apply fbs_In in Hb. destruct Hb as [Hb _]. apply reorder_In in Hb. auto. }
+    split; [apply fbs_NoDup; auto|]. split; auto. split; [|split].
+    - intros x Hx. apply In_ids_ex in Hx. destruct Hx as [b [B1 B2]]. subst. apply In_ids; auto.
+    - intros x Hx. rewrite <- lookup_fbs_sub by auto.
+      apply lookup_b_same_set; auto. intros b. symmetry. apply reorder_In.
+    - intros x Hx Hf. apply fbs_ids_In. split; auto.
+      apply In_ids_ex in Hx. destruct Hx as [b [B1 B2]]. subst. apply In_ids. apply reorder_In. auto.
+  Qed.
+
+  Lemma create_clause_ok : forall c v t e clsr nr m cl m0,
+    inv c (Create v t e clsr nr) m -> ax_clauses Sg c clsr = true -> In cl clsr -> m <= m0 ->
+    ax_check Sg (cl_ctx cl ++ cr_env c nr clsr) (cl_body cl) = true /\
+    inv (cl_ctx cl ++ cr_env c nr clsr) (cl_body cl) m0.
+  Proof.
+    intros c v t e clsr nr m cl m0 Hinv Hcl Hin Hm0.
+    pose proof Hinv as [I1 [I2 [I3 [I4 I5]]]]. rewrite binders_create in I2, I3, I5.
+    assert (I2c : NoDup (binders_cls clsr)).
+    { inversion I2; subst. match goal with Hx : NoDup (_ ++ _) |- _ => apply NoDup_app_iff in Hx; tauto end. }
+    unfold ax_clauses in Hcl. rewrite forallb_forall in Hcl.
+    destruct (cr_env_facts c nr clsr I1) as [Hcc [Hcc_in [Hcc_ids [Hcc_look _]]]].
+    set (cc := cr_env c nr clsr) in *.
+    assert (Hd : forall y, In y (ids (cl_ctx cl)) -> ~ In y (ids c)).
+    { intros y Hy Hc. apply (I3 _ Hc). right. apply in_or_app. left.
+      eapply binders_cls_In; eauto. apply in_or_app; auto. }
+    split.
+    - rewrite <- (Hcl cl Hin). symmetry. apply ax_check_ext. intros x Hx.
+      rewrite !lookup_b_app. destruct (lookup_b (cl_ctx cl) x) eqn:E; auto.
+      apply Hcc_look. apply fv_clauses_In. exists cl. repeat split; auto. apply lookup_b_None; auto.
+    - destruct (binders_cls_split clsr cl Hin) as [pre [post0 E]].
+      apply inv_gen with (c := c) (s := Create v t e clsr nr) (m := m)
+                         (pre := idn v :: pre ++ ids (cl_ctx cl)) (post := post0 ++ binders nr);
+        [exact Hinv|lia| | |].
+      + rewrite ids_app. apply NoDup_app_iff. repeat split; auto.
+        * eapply binders_cls_ctx_NoDup; eauto.
+        * intros x Hx Hx'. apply (Hd x Hx). auto.
+      + rewrite binders_create, E. simpl. rewrite <- !app_assoc. auto.
+      + intros x Hx. rewrite ids_app in Hx. apply in_app_or in Hx. destruct Hx as [Hx|Hx].
+        * right. left. right. apply in_or_app; auto.
+        * left. auto.
+  Qed.
+
+  Lemma create_else_ok : forall c v t e clsr nr m m1 cnf m2,
+    inv c (Create v t e clsr nr) m -> ax_check Sg (mkb v Cns t :: c) nr = true -> m <= m1 ->
+    freshen (filter_by_set c (fv nr)) (ids (cr_env c nr clsr)) m1 = (cnf, m2) ->
+    let cn := filter_by_set c (fv nr) in
+    let su := combine (ids cn) (vars cnf) in
+    same_shape cn cnf /\ NoDup (ids cnf) /\ ~ In (idn v) (ids cnf) /\ m1 <= m2 /\
+    ax_check Sg (cnf ++ [mkb v Cns t]) (sub_s su nr) = true /\
+    inv (cnf ++ [mkb v Cns t]) (sub_s su nr) m2 /\
+    untouched su (idn v :: binders nr) /\
+    (forall x, In x (ids cnf) -> ~ In x (ids (cr_env c nr clsr))).
+  Proof.
+    intros c v t e clsr nr m m1 cnf m2 Hinv Hn Hm1 Ef cn su.
+    pose proof Hinv as [I1 [I2 [I3 [I4 I5]]]]. rewrite binders_create in I2, I3, I5.
+    assert (Iv : ~ In (idn v) (ids c)) by (intros Hin; apply (I3 _ Hin); simpl; auto).
+    assert (Ivm : idn v <= m) by (apply I5; simpl; auto).
+    destruct (cr_env_facts c nr clsr I1) as [Hcc [Hcc_in [Hcc_ids _]]].
+    set (cc := cr_env c nr clsr) in *. set (vb := mkb v Cns t).
+    assert (Hcn : NoDup (ids cn)) by (apply fbs_NoDup; auto).
+    assert (Hb1 : forall x, In x (ids cc) -> x <= m1).
+    { intros x Hx. apply Hcc_ids in Hx. apply I4 in Hx. lia. }
+    assert (Hb2 : forall x, In x (ids cn) -> x <= m1).
+    { intros x Hx. apply fbs_ids_incl in Hx. apply I4 in Hx. lia. }
+    destruct (freshen_spec _ _ _ _ _ Ef Hb1 Hb2) as [F1 [F2 [F3 [F4 F5]]]].
+    assert (Hcnf_src : forall x, In x (ids cnf) -> In x (ids c) \/ (m1 < x /\ x <= m2)).
+    { intros x Hx. destruct (F5 x Hx) as [H|H]; auto. left. eapply fbs_ids_incl; eauto. }
+    assert (Hv_cnf : ~ In (idn v) (ids cnf)).
+    { intros Hin. destruct (Hcnf_src _ Hin) as [H|H]; [tauto|]. lia. }
+    assert (Hns : has_subst nr = false) by (eapply ax_check_no_subst; eauto).
+    assert (Hnd' : NoDup (ids (cnf ++ [vb]))).
+    { rewrite ids_app. apply NoDup_snoc; auto. }
+    assert (Hun : untouched su (idn v :: binders nr)).
+    { intros x Hx. unfold su. rewrite su_fst, su_snd by auto.
+      assert (Hxb : In x (idn v :: binders_cls clsr ++ binders nr)).
+      { destruct Hx as [<-|Hx]; [simpl; auto|]. right. apply in_or_app; auto. }
+      split.
+      - intros Hin. apply fbs_ids_incl in Hin. apply (I3 _ Hin); auto.
+      - intros Hin. destruct (Hcnf_src _ Hin) as [H|H].
+        + apply (I3 _ H); auto.
+        + apply I5 in Hxb. lia. }
+    split; auto. split; auto. split; auto. split; auto. split; [|split; [|split; auto]].
+    - apply ax_check_rename with (c := vb :: c); auto.
+      + intros x Hx. apply Hun. simpl; auto.
+      + intros n b Hn' Hl. rewrite lookup_b_cons in Hl. simpl in Hl.
+        destruct (N.eqb (idn v) n) eqn:En.
+        * apply N.eqb_eq in En. subst n. inversion Hl; subst b.
+          rewrite sub_n_notin.
+          2:{ unfold su. rewrite su_fst by auto. intros Hin. apply Iv. eapply fbs_ids_incl; eauto. }
+          exists vb. rewrite lookup_b_app.
+          assert (Hnone : lookup_b cnf (idn v) = None) by (apply lookup_b_None; auto).
+          rewrite Hnone. simpl. rewrite N.eqb_refl. auto.
+        * apply lookup_b_Some in Hl. destruct Hl as [L1 L2]. subst n.
+          assert (Hbcn : In b cn) by (apply fbs_In; auto).
+          destruct (ren_lookup cn cnf F2 Hcn b Hbcn) as [b' [B1 [B2 [B3 B4]]]].
+          exists b'. fold su in B2. rewrite B2. split; auto.
+          rewrite lookup_b_app. rewrite (lookup_b_In cnf b' F3 B1). auto.
+    - apply inv_gen with (c := c) (s := Create v t e clsr nr) (m := m)
+                         (pre := idn v :: binders_cls clsr) (post := []); [exact Hinv|lia|auto| |].
+      + rewrite binders_create, binders_sub by auto. simpl. rewrite app_nil_r. auto.
+      + intros x Hx. rewrite ids_app in Hx. apply in_app_or in Hx. destruct Hx as [Hx|[<-|[]]].
+        * destruct (Hcnf_src _ Hx) as [H|H]; auto. right. right. right. lia.
+        * right. left. simpl; auto.
+  Qed.
+  Lemma lin_cls_mono : forall (L : stmt -> ctx -> N -> stmt * N) mk cls m,
+    (forall cl m0, In cl cls -> m <= m0 -> m0 <= snd (L (cl_body cl) (mk (cl_ctx cl)) m0)) ->
+    m <= snd (lin_cls L mk cls m).
+  Proof.
+    intros L mk cls; induction cls as [|[[x cc] body] r IH]; intros m H; simpl; [lia|].
+    pose proof (H (x, cc, body) m (or_introl eq_refl) (N.le_refl m)) as H0. cl_simpl.
+    destruct (L body (mk cc) m) as [b' m'] eqn:E. simpl in H0.
+    assert (IH' := IH m').
+    destruct (lin_cls L mk r m') as [r' m''] eqn:E'. simpl in *.
+    assert (m' <= m''); [|lia]. apply IH'. intros cl m0 Hcl Hm0. apply H; auto. lia.
+  Qed.
+
+  Lemma lin_create_eq : forall f v t e clsr nr c m,
+    lin (S f) (Create v t e clsr nr) c m =
+    let cn := filter_by_set c (fv nr) in
+    let cc := cr_env c nr clsr in
+    let '(cls', m1) := lin_cls (lin f) (fun x => x ++ cc) clsr m in
+    if ctx_eqb c (cn ++ cc) then
+      let '(n', m2) := lin f nr (cn ++ [mkb v Cns t]) m1 in (Create v t (Some cc) cls' n', m2)
+    else
+      let '(cnf, m2) := freshen cn (ids cc) m1 in
+      let '(n', m3) := lin f (sub_s (combine (ids cn) (vars cnf)) nr) (cnf ++ [mkb v Cns t]) m2 in
+      (Substitute (combine (cnf ++ cc) (vars (cn ++ cc))) (Create v t (Some cc) cls' n'), m3).
+  Proof. reflexivity. Qed.
+
+  (* ---------------- create ---------------- *)
+  Lemma sim_create : forall n, sim_n n -> forall rho c v t e cls next s' ne le out o,
+    srel rho c (Create v t e cls next) s' -> map fst le = vars c ->
+    erel rho (fv (Create v t e cls next)) ne le ->
+    exec_named (S n) P ne (Create v t e cls next) out = o -> good o ->
+    exists n', exec_linear n' P' le s' out = o.
+  Proof.
+    intros n IH rho c v t e cls next s' ne le out o Hs Hsh He Hrun Hg.
+    apply srel_fuel in Hs. destruct Hs as [f [m [Hsz [Hns [Hu [Hax [Hinv ->]]]]]]].
+    rewrite sub_s_create in *.
+    set (er := option_map (map (sub_b rho)) e) in *.
+    set (clsr := map (fun c0 => (cl_xtor c0, cl_ctx c0, sub_s rho (cl_body c0))) cls) in *.
+    set (nr := sub_s rho next) in *.
+    rewrite size_create in Hsz. rewrite has_subst_create in Hns. rewrite binders_create in Hu.
+    rewrite ax_check_create in Hax.
+    apply orb_false_iff in Hns. destruct Hns as [Hnsc Hnsn].
+    assert (I1 : NoDup (ids c)) by apply Hinv.
+    assert (I4 : forall x, In x (ids c) -> x <= m) by apply Hinv.
+    apply andb_true_iff in Hax. destruct Hax as [Hax Hn].
+    apply andb_true_iff in Hax. destruct Hax as [Hok Hcl].
+    rewrite lin_create_eq. cbv zeta.
+    set (cn := filter_by_set c (fv nr)). set (cc := cr_env c nr clsr). set (vb := mkb v Cns t).
+    destruct (cr_env_facts c nr clsr I1) as [Hcc [Hcc_in [Hcc_ids [Hcc_look Hcc_mem]]]]. fold cc in Hcc, Hcc_in, Hcc_ids, Hcc_look, Hcc_mem.
+    assert (Hcn : NoDup (ids cn)) by (apply fbs_NoDup; auto).
+    (* the clauses *)
+    assert (Hmono : forall cl m0, In cl cls -> m <= m0 ->
+                   m0 <= snd (lin f (sub_s rho (cl_body cl)) (cl_ctx cl ++ cc) m0)).
+    { intros cl m0 Hin Hm0.
+      assert (Hclr : In (cl_xtor cl, cl_ctx cl, sub_s rho (cl_body cl)) clsr).
+      { unfold clsr. apply in_map_iff. exists cl; auto. }
+      destruct (create_clause_ok c v t er clsr nr m _ m0 Hinv Hcl Hclr Hm0) as [K1 K2]. cl_simpl. fold cc in K1, K2.
+      destruct (lin_good Sg f (sub_s rho (cl_body cl)) (cl_ctx cl ++ cc) m0) as [_ [G _]]; auto.
+      rewrite size_sub. apply size_cls_In in Hin. lia. }
+    assert (H2' := lin_cls_map_spec (lin f) (fun x => x ++ cc) (sub_s rho) cls m Hmono). fold clsr in H2'.
+    assert (Hm1 : m <= snd (lin_cls (lin f) (fun x => x ++ cc) clsr m)).
+    { apply lin_cls_mono. intros clr m0 Hin Hm0. unfold clsr in Hin. apply in_map_iff in Hin.
+      destruct Hin as [cl [<- Hin]]. cl_simpl. auto. }
+    destruct (lin_cls (lin f) (fun x => x ++ cc) clsr m) as [cls' m1] eqn:Ec. cbn [fst snd] in H2', Hm1.
+    (* the named step *)
+    simpl in Hrun.
+    destruct (ty_name t) as [tn|] eqn:Et; [|subst; exfalso; eapply finish_stuck_not_good; eauto].
+    destruct t as [|tn0]; simpl in Et; try discriminate. inversion Et; subst tn0.
+    (* the closure built on both sides *)
+    set (cap := rebind le cc cc).
+    assert (Vclo : vrel (VClo tn cls ne) (VClo tn cls' cap)).
+    { apply VR_clo with (rho := rho) (cc := cc).
+      - unfold cap. apply rebind_fst; auto.
+      - eapply Forall2_impl_In; [|exact H2']. intros cl cl' Hin [A1 [A2 [m0 [A3 A4]]]].
+        assert (Hclr : In (cl_xtor cl, cl_ctx cl, sub_s rho (cl_body cl)) clsr).
+        { unfold clsr. apply in_map_iff. exists cl; auto. }
+        destruct (create_clause_ok c v (Decl tn) er clsr nr m _ m0 Hinv Hcl Hclr A3) as [K1 K2]. cl_simpl. fold cc in K1, K2.
+        split; auto. split; auto. split.
+        + intros y Hy. apply Hu. right. apply in_or_app. left. eapply binders_cls_In; eauto. apply in_or_app; auto.
+        + apply srel_intro with (f := f) (m := m0); auto.
+          * apply size_cls_In in Hin. lia.
+          * apply (existsb_false_In (fun c0 => has_subst (cl_body c0)) cls cl Hnsc Hin).
+          * intros y Hy. apply Hu. right. apply in_or_app. left. eapply binders_cls_In; eauto. apply in_or_app; auto.
+      - intros x Hx. destruct (He x) as [w [w' [L1 [L2 V]]]]; [rewrite fv_create; apply union_In; auto|].
+        exists w, w'. split; auto. split; auto. unfold cap. rewrite rebind_self_lookup0; auto.
+        + rewrite (getv_Some _ _ _ L2). auto.
+        + apply Hcc_mem.
+          * destruct (in_dec N.eq_dec (sub_n rho x) (ids c)); auto.
+            exfalso. assert (lookup le (sub_n rho x) = None).
+            { apply lookup_None. rewrite (env_ids_shape le c); auto. }
+            congruence.
+          * apply fv_clauses_In in Hx. destruct Hx as [cl [C1 [C2 C3]]].
+            eapply fv_clauses_sub; eauto.
+            -- apply (existsb_false_In (fun c0 => has_subst (cl_body c0)) cls cl Hnsc C1).
+            -- intros y Hy. apply Hu. right. apply in_or_app. left. eapply binders_cls_In; eauto. }
+    assert (Hfvn : forall x, In x (fv next) -> x <> idn v -> In x (fv (Create v (Decl tn) e cls next)) /\ In (sub_n rho x) (fv nr)).
+    { intros x Hx Hne. split.
+      - rewrite fv_create. apply union_In. right. apply remove_In; auto.
+      - apply fv_sub; auto. intros y Hy. apply Hu. right. apply in_or_app; auto. }
+    destruct (ctx_eqb c (cn ++ cc)) eqn:Eq.
+    - (* the context is already right *)
+      destruct (snoc_ok Sg c (Create v (Decl tn) er clsr nr) m (fv nr) vb nr (binders_cls clsr) Hinv)
+        as [Hax' [Hinv' [Hnd' [_ Iv]]]]; auto.
+      { rewrite binders_create. auto. }
+      fold cn in Hax', Hinv', Hnd'.
+      destruct (lin f nr (cn ++ [vb]) m1) as [n' m2] eqn:En. cbn [fst].
+      set (le0 := rebind le cn cn).
+      destruct (IH rho (cn ++ [vb]) next n' ((v, VClo tn cls ne) :: ne) (le0 ++ [(v, VClo tn cls' cap)]) out o)
+        as [n1 Hn1]; auto.
+      { apply srel_intro with (f := f) (m := m1); [lia|auto| |exact Hax'| |fold nr; rewrite En; auto].
+        - intros y Hy. apply Hu. right. apply in_or_app; auto.
+        - apply Hinv'. auto. }
+      { unfold le0. apply shape_snoc_k. }
+      { unfold le0, cn. eapply erel_snoc; eauto. intros y [<-|[]]. apply Hu. simpl; auto. }
+      apply ctx_eqb_eq in Eq.
+      destruct (wrap_exec P' c le (cn ++ cc) (cn ++ cc) (Create v (Decl tn) (Some cc) cls' n')
+                          (Create v (Decl tn) (Some cc) cls' n') (S n1) out Hsh I1) as [j Hj]; auto.
+      { intros b Hb. apply In_ids. rewrite Eq. auto. }
+      exists (j + S n1)%nat. rewrite Hj. rewrite rebind_app by auto. fold le0 cap.
+      rewrite create_step; auto. unfold cap. apply rebind_fst; auto.
+    - (* rearrangement and renaming of next *)
+      destruct (freshen cn (ids cc) m1) as [cnf m2] eqn:Ef.
+      destruct (create_else_ok c v (Decl tn) er clsr nr m m1 cnf m2 Hinv Hn Hm1 Ef)
+        as [F2 [F3 [Hv_cnf [Hm2 [Hax' [Hinv' [Hun Hdis]]]]]]].
+      fold cn in F2, Hax', Hinv', Hun. fold vb in Hax', Hinv'.
+      set (su := combine (ids cn) (vars cnf)) in *.
+      destruct (lin f (sub_s su nr) (cnf ++ [vb]) m2) as [n' m3] eqn:En. cbn [fst].
+      set (rho' := compose su rho).
+      assert (Hcomp : sub_s su nr = sub_s rho' next) by (unfold nr, rho'; apply sub_s_compose; auto).
+      assert (Hlen : length cnf = length cn) by (symmetry; apply same_shape_length; auto).
+      set (le0 := rebind le cn cnf).
+      assert (Hur : untouched rho' (idn v :: binders next)).
+      { intros y Hy. unfold rho'. rewrite compose_dom. split.
+        - intros Hin. apply in_app_or in Hin. destruct Hin as [Hin|Hin].
+          + destruct (Hu y) as [U1 _]; [destruct Hy as [<-|Hy]; [simpl; auto|right; apply in_or_app; auto]|]. auto.
+          + destruct (Hun y) as [U1 _]; [unfold nr; rewrite binders_sub by auto; auto|]. auto.
+        - intros Hin. apply compose_range in Hin. destruct Hin as [Hin|Hin].
+          + destruct (Hu y) as [_ U2]; [destruct Hy as [<-|Hy]; [simpl; auto|right; apply in_or_app; auto]|]. auto.
+          + destruct (Hun y) as [_ U2]; [unfold nr; rewrite binders_sub by auto; auto|]. auto. }
+      destruct (IH rho' (cnf ++ [vb]) next n' ((v, VClo tn cls ne) :: ne) (le0 ++ [(v, VClo tn cls' cap)]) out o)
+        as [n1 Hn1]; auto.
+      { apply srel_intro with (f := f) (m := m2); [lia|auto| | | |].
+        - intros y Hy. apply Hur. simpl; auto.
+        - rewrite <- Hcomp. auto.
+        - rewrite <- Hcomp. auto.
+        - rewrite <- Hcomp, En. auto. }
+      { unfold le0. rewrite map_app, rebind_fst, vars_app by auto. auto. }
+      { intros x Hx. destruct (N.eq_dec x (idn v)) as [->|Hne].
+        - exists (VClo tn cls ne), (VClo tn cls' cap). simpl. rewrite N.eqb_refl.
+          rewrite (untouched_sub_n rho' (idn v :: binders next)) by (auto; simpl; auto).
+          unfold le0. rewrite rebind_notin; auto. simpl. rewrite N.eqb_refl. auto.
+        - destruct (Hfvn x Hx Hne) as [H1 H2]. destruct (He x H1) as [w [w' [L1 [L2 V]]]].
+          exists w, w'. simpl. apply N.eqb_neq in Hne. rewrite N.eqb_sym in Hne. rewrite Hne.
+          split; auto. split; auto.
+          assert (Hxc : In (sub_n rho x) (ids cn)).
+          { apply fbs_ids_In. split; auto.
+            destruct (in_dec N.eq_dec (sub_n rho x) (ids c)); auto.
+            exfalso. assert (lookup le (sub_n rho x) = None).
+            { apply lookup_None. rewrite (env_ids_shape le c); auto. }
+            congruence. }
+          apply In_ids_ex in Hxc. destruct Hxc as [b [B1 B2]].
+          destruct (ren_lookup_pos cn cnf F2 Hcn b B1) as [b' [P1 P2]].
+          fold su in P2. unfold rho'. rewrite sub_n_compose, <- B2, P2.
+          unfold le0. rewrite (rebind_lookup le cnf cn _ b' b); auto.
+          rewrite B2, (getv_Some _ _ _ L2). auto. }
+      destruct (wrap_exec P' c le (cnf ++ cc) (cn ++ cc) (Create v (Decl tn) (Some cc) cls' n')
+                          (Substitute (combine (cnf ++ cc) (vars (cn ++ cc))) (Create v (Decl tn) (Some cc) cls' n'))
+                          (S n1) out Hsh I1) as [j Hj]; auto.
+      { rewrite !app_length. lia. }
+      { intros b Hb. apply In_ids. apply in_app_or in Hb. destruct Hb as [Hb|Hb]; auto.
+        apply fbs_In in Hb. tauto. }
+      exists (j + S n1)%nat. rewrite Hj. rewrite rebind_app by auto. fold le0 cap.
+      rewrite create_step; auto. unfold cap. apply rebind_fst; auto.
+  Qed.
 End Sim.
